@@ -85,12 +85,12 @@ type rng struct {
 
 type plan struct {
 	// broker
-	Close       bool           `json:"close_on_apiversions"`
-	Table       map[int16]rng  `json:"table"`
-	Order       []int16        `json:"-"`
-	Understands int16          `json:"understands"`
-	Dance       int            `json:"dance"`
-	Dance18     int16          `json:"dance18"`
+	Close       bool             `json:"close_on_apiversions"`
+	Table       map[int16]rng    `json:"table"`
+	Order       []int16          `json:"-"`
+	Understands int16            `json:"understands"`
+	Dance       int              `json:"dance"`
+	Dance18     int16            `json:"dance18"`
 	Feat        map[string]int16 `json:"features,omitempty"`
 	// user
 	MaxMode int             `json:"max_mode"` // 0 default(Stable) 1 nil 2 generated
